@@ -188,7 +188,10 @@ fn check_predict(code: usize) -> Option<String> {
 
 // ---- evaluate ----
 // (a sentence whose LAST word the model gets wrong is followed by sentences whose first word it gets right, and the other way round)
-const GOLD: [&str; 9] = ["まぁ/名詞/マー 社長/名詞/シャチョー は/助詞/ワ 火星/名詞/カセー 猫/名詞/ネコ だ/助動詞/ダ", "", "火星 猫だ", "まぁ 良い だろう", "火星 に 行き まし た", "１２ 個 の ABC", "x", "まぁ良い だろう", "火星 猫 だ"];
+const GOLD: [&str; 11] = ["まぁ/名詞/マー 社長/名詞/シャチョー は/助詞/ワ 火星/名詞/カセー 猫/名詞/ネコ だ/助動詞/ダ", "", "火星 猫だ", "まぁ 良い だろう", "火星 に 行き まし た", "１２ 個 の ABC", "x", "まぁ良い だろう", "火星 猫 だ",
+    // white space that BELONGS to the reference sentence: an ideographic space at the start of the first token, an escaped
+    // space at the end of the last one
+    "\u{3000}火星 猫 だ", "まぁ 良い\\ "];
 
 /// the reference lines: GOLD plus (long = true) one line of 190,000 characters -- a document without line
 /// breaks; every one of its four per-line counts exceeds 16 bits
